@@ -78,5 +78,35 @@ ITEMS = [
                ('frame', 'self.max_level == old(self).max_level && self.policy_id == old(self).policy_id'),
                ('errors', f'has_err(self.{ERRS}) == (has_err(old(self).{ERRS}) || !(forall|i: int| 0 <= i < it_3.index@ ==> lvl_ok(#[trigger] attrs@[attrs.key_order()[i]], env, old(self).max_level.level as nat)))')]),
        }),
+    Type('cedar-policy-core/src/validator/typecheck.rs', 'enum PolicyCheck'),
+    Raw(file='prelude2.rs', tag='prelude'),
+    Fn(LV, 'impl<I: Into<u32>> From<I> for EntityDerefLevel > fn from', name='EntityDerefLevel::from<u32>', wrap='impl EntityDerefLevel',
+       sig_rewrites=[(r'fn from\(value: I\)', 'fn from_u32(value: u32)', 1)], rewrites=[(r'value\.into\(\)', 'value', 1)],
+       ensures=[('level', 'r.level == value')]),
+    Fn(LV, 'impl Validator > fn validate_policy_with_level', name='Validator::validate_policy_with_level', wrap='impl Validator',
+       sig_rewrites=[(r"impl Iterator<Item = ValidationError> \+ 'a", 'VxIter<ValidationError>', 1), (r"impl Iterator<Item = ValidationWarning> \+ 'a", 'VxIter<ValidationWarning>', 1)],
+       rewrites=[(r'max_level: (.*?)\.into\(\),', r'max_level: EntityDerefLevel::from_u32(\1),', 1),
+                 (r'for \(req_env, policy_check\) in type_annotated_asts \{', 'for _vxp in type_annotated_asts { let (req_env, policy_check) = _vxp;', 1)],
+       proof_tail='''proof {
+            let s = level_checker.level_checking_errors;
+            axiom_hashset_order_ok(s);
+            if s.elem_order().len() > 0 { assert(s@.contains(s.elem_order()[0])); }
+            if has_err(s@) { let x = choose|x: ValidationError| s@.contains(x); assert(s.elem_order().contains(x)); }
+        }''',
+       ensures=[('accepts', 'r.0.items().len() == 0 <==> self.spec_validate_errors(p, mode).len() == 0 && envs_ok(spec_typecheck(&self.schema, mode, p), spec_typecheck(&self.schema, mode, p).len() as int, max_deref_level as nat)')],
+       loops={1: Loop(invariant=[
+           ('snapshot', 'it_1.snapshot@.remaining() == spec_typecheck(&self.schema, mode, p)'),
+           ('frame', 'level_checker.max_level.level == max_deref_level'),
+           ('errors', f'has_err(level_checker.{ERRS}) == !envs_ok(spec_typecheck(&self.schema, mode, p), it_1.index@ as int, max_deref_level as nat)'),
+       ], proof_end='''proof {
+                let envs = spec_typecheck(&self.schema, mode, p); let n = it_1.index@ as int;
+                assert(envs_ok(envs, n + 1, max_deref_level as nat) <==> envs_ok(envs, n, max_deref_level as nat) && (match envs[n].1 {
+                    PolicyCheck::Success(e) => lvl_ok(e, &envs[n].0, max_deref_level as nat), PolicyCheck::Irrelevant(_, e) => lvl_ok(e, &envs[n].0, max_deref_level as nat), PolicyCheck::Fail(_) => true })) by {
+                    if envs_ok(envs, n, max_deref_level as nat) && (match envs[n].1 { PolicyCheck::Success(e) => lvl_ok(e, &envs[n].0, max_deref_level as nat), PolicyCheck::Irrelevant(_, e) => lvl_ok(e, &envs[n].0, max_deref_level as nat), PolicyCheck::Fail(_) => true }) {
+                        assert forall|i: int| 0 <= i < n + 1 implies match (#[trigger] envs[i]).1 { PolicyCheck::Success(e) => lvl_ok(e, &envs[i].0, max_deref_level as nat), PolicyCheck::Irrelevant(_, e) => lvl_ok(e, &envs[i].0, max_deref_level as nat), PolicyCheck::Fail(_) => true } by { if i < n {} }
+                    }
+                    if envs_ok(envs, n + 1, max_deref_level as nat) { assert(envs[n].1 == envs[n].1); }
+                }
+            }''')}),
 ]
 CANARIES = ['check_expr_level', 'check_entity_deref_target_level']
